@@ -196,7 +196,8 @@ def rand_cmd(rng, ntrx):
     if r < 0.08:
         n = rng.randint(1, 5)
         ma = [rng.choice(FREQS) for _ in range(2 * n + rng.choice([0, 0, 1]))]
-        return "SETFH %d %d %s" % (rng.randrange(64), rng.randrange(64), " ".join(str(x) for x in ma))
+        hsn = rng.randrange(64) if rng.random() < 0.85 else rng.choice([64, 65, 100, 127, 255, 1000, -1, -64])
+        return "SETFH %d %d %s" % (hsn, rng.choice([rng.randrange(64), rng.randrange(64), 64, 200, -1]), " ".join(str(x) for x in ma))
     return rng.choice(table)
 
 
